@@ -142,17 +142,18 @@ func run(src []byte, o *vh.Out) {
 		out, ferr = format.Source(src, false)
 	}()
 	cl := caseLine(before)
+	clsrc := cl + "\t" + vh.Hex(src) // oracle lines carry the source so that they can be replayed
 	if ferr != nil {
 		// formatting a parseable file failed: not an import-set question, but nothing to compare
 		o.Count("format_failed")
 		if strings.HasPrefix(ferr.Error(), "PANIC") {
-			o.Oracle("format-panic", cl+"\t"+vh.Hex(src), ferr.Error())
+			o.Oracle("format-panic", clsrc, ferr.Error())
 		}
 		return
 	}
 	after, err := view(out)
 	if err != nil {
-		o.Oracle("output-not-parsed", cl+"\t"+vh.Hex(src), err.Error())
+		o.Oracle("output-not-parsed", clsrc, err.Error())
 		return
 	}
 	nspecs, ngrouped, nruns, ndups, ncomments, maxrun := 0, 0, 0, 0, 0, 0
@@ -184,14 +185,14 @@ func run(src []byte, o *vh.Out) {
 			ndups++
 		}
 		if ca[p] == 0 {
-			o.Oracle("import-lost", cl, fmt.Sprintf("%q %q", p.name, p.path))
+			o.Oracle("import-lost", clsrc, fmt.Sprintf("%q %q", p.name, p.path))
 		} else if ca[p] > n {
-			o.Oracle("import-multiplied", cl, fmt.Sprintf("%q %q", p.name, p.path))
+			o.Oracle("import-multiplied", clsrc, fmt.Sprintf("%q %q", p.name, p.path))
 		}
 	}
 	for p := range ca {
 		if cb[p] == 0 {
-			o.Oracle("import-added", cl, fmt.Sprintf("%q %q", p.name, p.path))
+			o.Oracle("import-added", clsrc, fmt.Sprintf("%q %q", p.name, p.path))
 		}
 	}
 	// a copy that carries a comment is never dropped: per (name, path) at least as many specs
@@ -206,20 +207,20 @@ func run(src []byte, o *vh.Out) {
 	}
 	for p, n := range commented {
 		if ca[p] < n {
-			o.Oracle("commented-duplicate-dropped", cl, fmt.Sprintf("%q %q", p.name, p.path))
+			o.Oracle("commented-duplicate-dropped", clsrc, fmt.Sprintf("%q %q", p.name, p.path))
 		}
 	}
 	if len(before) != len(after) {
-		o.Oracle("decl-count", cl, fmt.Sprintf("%d -> %d", len(before), len(after)))
+		o.Oracle("decl-count", clsrc, fmt.Sprintf("%d -> %d", len(before), len(after)))
 	} else {
 		for i := range before {
 			if before[i].kind != after[i].kind {
-				o.Oracle("decl-kind", cl, fmt.Sprint(i))
+				o.Oracle("decl-kind", clsrc, fmt.Sprint(i))
 				continue
 			}
 			if before[i].kind == 'U' {
 				if outLine(before[i:i+1]) != outLine(after[i:i+1]) {
-					o.Oracle("ungrouped-changed", cl, fmt.Sprint(i))
+					o.Oracle("ungrouped-changed", clsrc, fmt.Sprint(i))
 				}
 			}
 		}
@@ -231,7 +232,7 @@ func run(src []byte, o *vh.Out) {
 		}
 		for j := 1; j < len(d.specs); j++ {
 			if d.specs[j].line <= 1+d.specs[j-1].endLine && d.specs[j].path < d.specs[j-1].path {
-				o.Oracle("group-unsorted", cl+"\t"+vh.Hex(src), fmt.Sprintf("%q after %q", d.specs[j].path, d.specs[j-1].path))
+				o.Oracle("group-unsorted", clsrc, fmt.Sprintf("%q after %q", d.specs[j].path, d.specs[j-1].path))
 			}
 		}
 	}
@@ -401,10 +402,7 @@ func main() {
 	o := vh.NewOut(f.Out)
 	defer o.Close()
 	if f.Replay != "" {
-		fs := strings.Split(f.Replay, "\t")
-		if len(fs) < 3 {
-			fs = strings.Fields(f.Replay)
-		}
+		fs := strings.Fields(f.Replay)
 		if len(fs) >= 3 {
 			src, _ := vh.UnHex(fs[len(fs)-1])
 			run(src, o)
